@@ -1,5 +1,5 @@
 Require Import Coq.extraction.Extraction.
 Require Import Coq.extraction.ExtrOcamlBasic.
-From ApiFu Require Import Base.Sexp Exe.ExecCheck.
+From ApiFu Require Import Base.Sexp ExeA.ArgCheck.
 Extraction Language OCaml.
-Extraction "c01.ml" ExecCheck.check.
+Extraction "c01.ml" ArgCheck.check.
